@@ -17,6 +17,18 @@ application does inside that callback:
     ("raw", n)      (lines only) treat the next n bytes as raw data, then go back
                     to line mode
     ("lose",)       request a close: nothing after it is compared
+    ("maxlen", n)   set the receiver's MAX_LENGTH to n: the messages that FOLLOW
+                    message k in the stream are judged against n
+    ("delim", d)    (lines only) set the delimiter to d: the bytes that follow
+                    message k's delimiter are split on d
+(the message in whose callback the change is made has been framed completely,
+so every later byte of the stream belongs to a later message and is framed with
+the new values - whether it had already been delivered is a detail of the
+segmentation, which must not show).
+
+`state_out`, when given, is a dict that receives where the framing stopped:
+"pos" (offset of the first byte not consumed by a complete message), "k"
+(messages delivered), "maxlen" and "delim" (values in force there).
 
 The second return value says what the statement leaves open at the END of the
 stream (where a real connection would simply keep waiting for more bytes):
@@ -37,13 +49,19 @@ def overlap(residue, delimiter):
     return 0
 
 
-def frame_lines(stream, delimiter, max_length, actions=None):
+def _note(state_out, pos, k, max_length, delimiter=b""):
+    if state_out is not None:
+        state_out.update(pos=pos, k=k, maxlen=max_length, delim=delimiter)
+
+
+def frame_lines(stream, delimiter, max_length, actions=None, state_out=None):
     actions = actions or {}
     ev = []
     pos = 0
     k = 0
     n = len(stream)
     while True:
+        _note(state_out, pos, k, max_length, delimiter)
         i = stream.find(delimiter, pos)
         if i < 0:
             residue = stream[pos:]
@@ -62,6 +80,10 @@ def frame_lines(stream, delimiter, max_length, actions=None):
         if act[0] == "lose":
             ev.append(("close",))
             return ev, "none"
+        if act[0] == "maxlen":
+            max_length = act[1]
+        elif act[0] == "delim":
+            delimiter = act[1]
         if act[0] == "raw":
             raw = stream[pos:pos + act[1]]
             pos += len(raw)
@@ -69,15 +91,17 @@ def frame_lines(stream, delimiter, max_length, actions=None):
                 ev.append(("raw", raw))
             if len(raw) < act[1] or pos >= n:
                 # still in raw mode, or back in line mode with nothing left
+                _note(state_out, pos, k, max_length, delimiter)
                 return ev, "none"
 
 
-def frame_intn(stream, prefix_len, max_length, actions=None):
+def frame_intn(stream, prefix_len, max_length, actions=None, state_out=None):
     actions = actions or {}
     ev = []
     pos = 0
     k = 0
     n = len(stream)
+    _note(state_out, pos, k, max_length)
     while n - pos >= prefix_len:
         length = int.from_bytes(stream[pos:pos + prefix_len], "big")
         if length > max_length:
@@ -94,18 +118,22 @@ def frame_intn(stream, prefix_len, max_length, actions=None):
         if act[0] == "lose":
             ev.append(("close",))
             return ev, "none"
+        if act[0] == "maxlen":
+            max_length = act[1]
+        _note(state_out, pos, k, max_length)
     return ev, "none"
 
 
 _DIGITS = b"0123456789"
 
 
-def frame_netstrings(stream, max_length, actions=None):
+def frame_netstrings(stream, max_length, actions=None, state_out=None):
     actions = actions or {}
     ev = []
     pos = 0
     k = 0
     n = len(stream)
+    _note(state_out, pos, k, max_length)
 
     def invalid(at):
         # `at` = index of the byte that makes the stream invalid
@@ -141,6 +169,9 @@ def frame_netstrings(stream, max_length, actions=None):
         if act[0] == "lose":
             ev.append(("close",))
             return ev, "none"
+        if act[0] == "maxlen":
+            max_length = act[1]
+        _note(state_out, pos, k, max_length)
     return ev, "none"
 
 
